@@ -1,11 +1,12 @@
 (* C05  Results are invariant under meaning-preserving rewrites -- the two places where layout and names
    enter the analysis: the raw lexer (layout) and the VariableMap (names).
-   partial: the lexer theorem covers phase 1 (TokenList::readfile) for names/numbers and single-character
-   punctuators with blank separators; combineOperators, comments, literals and line splices are modelled
-   (Names/LexDefs.v) and tied by runs only; that every later pass looks only at tokens and ids is carried by
+   partial: the lexer theorems cover readfile for names/numbers and single-character punctuators (stage 1) and
+   readfile + combineOperators for the two-character operators built from one adjacent pair (stage 2, maximal
+   munch), with blank separators; shifts, ++ --, and-assign, ellipsis, float assembly, comments, literals and
+   line splices are modelled (Names/LexDefs.v) and tied by runs only; that every later pass looks only at tokens and ids is carried by
    the end-to-end rewrite runs of tools/props/c05.py. *)
 From Coq Require Import List NArith Bool.
-From CV Require Import Base.Bytes Names.Defs Names.VmProofs Names.LexDefs Names.LexProofs.
+From CV Require Import Base.Bytes Names.Defs Names.VmProofs Names.LexDefs Names.LexProofs Names.LexProofs2.
 Import ListNotations.
 Local Open Scope N_scope.
 
@@ -52,3 +53,36 @@ Theorem C05_lex_render_needs_sep_refuted :
                   map tstr (lex1 (render ws toks)) <> map stok_str toks.
 Proof. exact lex_render_needs_sep. Qed.
 Print Assumptions C05_lex_render_needs_sep_refuted.
+
+(* stage 2, maximal munch: the full raw lexer (readfile + combineOperators) returns, for every token list that may
+   also contain  == != <= >= += -= *= /= %= |= ^= || && :: ->  and every family of blank separators that keeps two
+   names and two operators apart, exactly the tokens (the two characters read back as ONE token) at the positions
+   of the rewrite's location map. no_exp keeps `1e + 5` out (assembled whatever separates the parts). *)
+Theorem C05_lex_render_munch_partial : forall toks ws,
+  length ws = S (length toks) ->
+  Forall (fun w => forallb is_blank w = true) ws ->
+  forallb stok2_ok toks = true ->
+  sep2_ok ws toks = true ->
+  no_exp toks = true ->
+  map tstr (lex (render2 ws toks)) = map stok2_str toks /\
+  map (fun t => (tline t, tcol t)) (lex (render2 ws toks)) = positions2 ws toks 1 1.
+Proof.
+  intros toks ws H1 H2 H3 H4 H5. rewrite (lex_render_munch toks ws H1 H2 H3 H4 H5).
+  split; [apply merged_strs | apply merged_positions]; assumption.
+Qed.
+Print Assumptions C05_lex_render_munch_partial.
+
+Example C05_lex_render_munch_partial_inhabited :
+  let toks := [TName [97]; TOp2 60 61; TName [98]; TOp2 38 38; TOp 33; TName [99]; TOp2 45 62; TName [100]; TOp 59] in
+  let ws := [[]; [32]; []; [10; 9]; [32]; []; []; []; []; [10]] in
+  length ws = S (length toks) /\ forallb (forallb is_blank) ws = true /\ forallb stok2_ok toks = true /\
+  sep2_ok ws toks = true /\ no_exp toks = true /\
+  map (fun t => (tstr t, tline t, tcol t)) (lex (render2 ws toks)) =
+    [([97], 1, 1); ([60; 61], 1, 3); ([98], 1, 5); ([38; 38], 2, 2); ([33], 2, 5); ([99], 2, 6); ([45; 62], 2, 7); ([100], 2, 9); ([59], 2, 10)].
+Proof. vm_compute. repeat split; reflexivity. Qed.
+
+Theorem C05_lex_munch_needs_sep_refuted :
+  exists toks ws, length ws = S (length toks) /\ forallb stok2_ok toks = true /\ sep2_ok ws toks = false /\
+                  map tstr (lex (render2 ws toks)) <> map stok2_str toks.
+Proof. exact lex_munch_needs_sep. Qed.
+Print Assumptions C05_lex_munch_needs_sep_refuted.
